@@ -118,6 +118,22 @@ def scenarios(ctx):
                             # the body (the parser relies on that, htp_response.c Expect handling): not a well-formed continuation
                             c2, e2 = dict(cfg, wf=0, cls="expect-refused-body-sent"), []
                         out.append(Scn("early/b%d.%s.%s.c%d.s%d" % (bi, ename, sname, c, sc), arr, c2, (), e2))
+    # a response announced as chunked whose first line is not a chunk length: libhtp falls back to "identity up to the close"
+    # (htp_connp_RES_BODY_CHUNKED_LENGTH); every byte after the head (a leading empty line excepted, which is skipped as framing)
+    # is body, taken from the wire once and handed over once, for every chunking
+    rest = b"3\r\nabc\r\n0\r\n\r\n"
+    for li, (line, skipped) in enumerate([(b";\n", 0), (b";\r\n", 0), (b"zz\r\n", 0), (b"-5\r\n", 0), (b"g1\r\n", 0), (b"\r\n;\r\n", 2), (b" \t;x\r\n", 0), (b"notachunklength\r\n", 0), (b"ffffffffff\r\n", 0)]):
+        qs = b"GET /b HTTP/1.1\r\n" + H + b"\r\n"
+        head = b"HTTP/1.1 200 OK\r\nTransfer-Encoding: chunked\r\n\r\n"
+        ss = head + line + rest
+        exp = [("<", 0, (line + rest)[skipped:], len(line + rest))]
+        cfg = {"wf": 0, "n": 1, "cls": "notchunked", "dump": 0}
+        whole = [(">", qs), ("<", ss)]
+        out.append(Scn("notchunked/l%d.whole" % li, whole, cfg, (), exp))
+        for c in range(len(head) - 2, len(ss)):
+            out.append(Scn("notchunked/l%d.c%d" % (li, c), [(">", qs), ("<", ss[:c]), ("<", ss[c:])], cfg, (), exp))
+        out.append(Scn("notchunked/l%d.byte" % li, streams.recut(whole, "byte"), cfg, (), exp))
+        out.append(Scn("notchunked/l%d.rand" % li, streams.recut(whole, "rand", rnd), cfg, (), exp))
     # accounting on arbitrary input (no expectations): corpus and mutants
     out += gens.corpus(ctx.seed, q, modes=("orig", "rand"), nrand=1 if q else 6, mutants=2 if q else 10)
     return out
